@@ -349,6 +349,71 @@ def run_all(tier, workdir):
     return res
 
 
+def run_suite(tier, workdir):
+    """Conformance in the other direction: the repository's OWN test-suite is run with hook H3 switched on (scratch target
+    directory outside /repo and /verif, removed afterwards); every committed transaction of every test becomes a `txn`
+    event (one behaviour per test) and TLC validates the property-level transition constraints and cross-replica
+    invariants of Trace_Yata on it."""
+    import tempfile
+    seed = vlib.seed()
+    cpath = _cache_path(vlib.tree_hash(), "yata", "suite", tier, seed)
+    if os.path.exists(cpath):
+        with open(cpath) as f:
+            r = json.load(f)
+        r["cached"] = True
+        return r
+    vlib.build_harness("yx_suite")
+    t0 = time.time()
+    scratch = tempfile.mkdtemp(prefix="yx-suite-", dir="/tmp")
+    try:
+        env = {"RUSTFLAGS": "--cfg y_crdt_y_crdt_verif --check-cfg cfg(y_crdt_y_crdt_verif) --cap-lints allow",
+               "CARGO_TARGET_DIR": os.path.join(scratch, "target"), "YRS_VERIF_TRACE": os.path.join(scratch, "raw"), "CARGO_NET_OFFLINE": "true"}
+        rc, out = vlib.sh("cargo test -p yrs --features weak --lib --offline -- --skip test_medium_data_set --skip edit_trace "
+                          "--skip test_small_data_set --skip fuzzy_test_300 2>&1 | tail -40", cwd=vlib.REPO, env=env, timeout=3000)
+        failed_tests = [ln.split()[1] for ln in out.splitlines() if ln.startswith("test ") and ln.rstrip().endswith("FAILED")]
+        if "test result:" not in out:
+            raise vlib.ToolError("test-suite run with hooks on produced no result:\n" + out[-1500:])
+        wd = os.path.join(workdir, "yata-suite")
+        shutil.rmtree(wd, ignore_errors=True)
+        os.makedirs(wd)
+        tfile = os.path.join(wd, "trace.ndjson")
+        rc, out2 = vlib.sh([os.path.join(vlib.HARNESS, "target", "debug", "yx_suite"), "--in", os.path.join(scratch, "raw"), "--out", tfile,
+                            "--skip", "multi_threading"], timeout=900)
+        if rc != 0:
+            raise vlib.ToolError("yx_suite failed: " + out2[-1000:])
+        summary = json.loads(out2.strip().splitlines()[-1])
+    finally:
+        shutil.rmtree(scratch, ignore_errors=True)
+    tv = time.time()
+    merged = vlib.validate("Trace_Yata", "Trace_Yata.cfg", tfile, os.path.join(wd, "v"), parallel=8)
+    bad, events = {}, {}
+    for bid, pred, line in merged["viol"]:
+        bad.setdefault(bid, []).append([pred, line])
+    if bad:
+        cur, evs = None, {}
+        with open(tfile) as f:
+            for ln in f:
+                if ln.startswith('{"bid":'):
+                    cur = json.loads(ln)["bid"]
+                    cur = cur if cur in bad else None
+                    if cur:
+                        evs[cur] = []
+                elif cur:
+                    evs[cur].append(ln)
+        for b, preds in bad.items():
+            k = min(p[1] for p in preds)
+            if b in evs and 1 <= k <= len(evs[b]):
+                events[b] = json.loads(evs[b][k - 1])
+    res = {"group": "suite", "engine": "yata", "merged": merged, "v_wall": time.time() - tv, "wall": time.time() - t0,
+           "tests": summary["behaviours"], "skipped": summary["skipped"], "failed_tests": failed_tests,
+           "bad": {b: {"preds": p, "schedule": {"bid": b, "suite_test": b[6:], "note": "re-run the repository test with the hooks on"},
+                       "event": events.get(b)} for b, p in bad.items()},
+           "nontrivial": [b for b in range(summary["behaviours"])], "samples": [], "cached": False}
+    with open(cpath, "w") as f:
+        json.dump(res, f)
+    return res
+
+
 def check(prop, tier):
     ev = vlib.Evidence(prop, tier)
     bt = vlib.build_harness("yx")
@@ -364,6 +429,12 @@ def check(prop, tier):
     ev.add_v("all groups + %d random behaviours" % r["random_behaviours"], r["merged"], r["nontrivial"], r["v_wall"])
     for s in r["samples"]:
         ev.sample(s)
+    results = [r]
+    if tier == "thorough" and not os.environ.get("VERIF_ONLY_GROUPS"):
+        sr = run_suite(tier, wd)
+        results.append(sr)
+        ev.add_v("repository test-suite with hook H3 (%d tests, %d skipped)" % (sr["tests"], len(sr["skipped"])), sr["merged"], [], sr["v_wall"])
+        ev.cov["suite"] = {"tests_validated": sr["tests"], "skipped": sr["skipped"], "failed_tests_in_that_run": sr["failed_tests"]}
     ev.cov["groups"] = [{k: g[k] for k in ("group", "replay", "used")} for g in r["gstats"]]
     ev.cov["rule"] = ("behaviours = TLC-enumerated histories (all operation sequences within the bounds of the G "
                       "configurations x all delivery orders to an observer; nested/merged groups validated on a seeded sample, sizes in "
@@ -374,6 +445,6 @@ def check(prop, tier):
     ev.cov["harness_build_s"] = round(bt, 1)
     ev.assumptions = ["TLC, CommunityModules", "harness adapters and observation functions (obs.rs, codec.rs)",
                       "hook H1 (yrs::verif) reports the item lists faithfully"]
-    rc = vlib.report(prop, ev, [r], PREFIXES[prop])
+    rc = vlib.report(prop, ev, results, PREFIXES[prop])
     ev.write()
     return rc
